@@ -59,6 +59,7 @@ type msgWriter struct {
 	err             error
 	multiPartWriter [4]*multipart.Writer
 	partWriter      io.Writer
+	smimePreRender  bool
 	writer          io.Writer
 }
 
@@ -381,6 +382,15 @@ func (mw *msgWriter) addFiles(files []*File, isAttachment bool) {
 			}
 			sort.Strings(headers)
 			for _, header := range headers {
+				if mw.smimePreRender {
+					// In the final message this file is a part of multipart/signed and its headers
+					// are written by multipart.Writer.CreatePart, which does not fold them. The
+					// signed bytes have to be identical to that
+					for _, value := range file.Header[header] {
+						mw.writeString(fmt.Sprintf("%s: %s%s", header, value, SingleNewLine))
+					}
+					continue
+				}
 				mw.writeHeader(Header(header), file.Header[header]...)
 			}
 			mw.writeString(SingleNewLine)
